@@ -23,13 +23,14 @@ type TierCfg struct {
 }
 
 type HarnessCfg struct {
-	Name     string   `json:"name"`
-	Covers   []string `json:"covers"`
-	Quick    TierCfg  `json:"quick"`
-	Thorough TierCfg  `json:"thorough"`
-	What     string   `json:"what"`
-	MapFree  bool     `json:"map_free"`
-	Repeat   int      `json:"replay_repeat"`
+	Name             string   `json:"name"`
+	Covers           []string `json:"covers"`
+	Quick            TierCfg  `json:"quick"`
+	Thorough         TierCfg  `json:"thorough"`
+	What             string   `json:"what"`
+	MapFree          bool     `json:"map_free"`
+	Repeat           int      `json:"replay_repeat"`
+	BoundIsViolation bool     `json:"bound_is_violation"`
 }
 
 type CheckCfg struct {
@@ -220,6 +221,7 @@ func runCheck(id, tier, repo, only string, workers int, noNative bool) int {
 		if h.maxPaths == 0 {
 			h.maxPaths = 200000
 		}
+		h.boundIsViolation = hc.BoundIsViolation
 		h.run(workers, time.Now().Add(budget))
 		runs = append(runs, h)
 		ev := &harnessEvidence{Name: hc.Name, What: hc.What, Params: eng.params, Paths: h.paths, Outcomes: h.outcomes,
@@ -246,7 +248,7 @@ func runCheck(id, tier, repo, only string, workers int, noNative bool) int {
 		if len(h.unsupported) > 0 {
 			noVerdict = append(noVerdict, hc.Name+": unsupported constructs")
 		}
-		if len(h.boundHits) > 0 {
+		if len(h.boundHits) > 0 && !hc.BoundIsViolation {
 			noVerdict = append(noVerdict, hc.Name+": bound hit")
 		}
 		if h.truncated {
@@ -534,7 +536,9 @@ func runBatch(bin, buildDir string, batch []replayItem) ([]replayResult, error) 
 	bj, _ := json.Marshal(batch)
 	bp := filepath.Join(buildDir, "batch.json")
 	os.WriteFile(bp, bj, 0o644)
-	cmd := exec.Command(bin, bp)
+	// the replayed code may loop or recurse without bound: cap time and memory
+	limit := 20 + len(batch)/5
+	cmd := exec.Command("bash", "-c", fmt.Sprintf("ulimit -v 6000000; exec timeout -s KILL %d %q %q", limit, bin, bp))
 	cmd.Dir = buildDir
 	var out bytes.Buffer
 	cmd.Stdout = &out
@@ -550,18 +554,19 @@ func runBatch(bin, buildDir string, batch []replayItem) ([]replayResult, error) 
 		}
 	}
 	if err != nil && len(res) < len(batch) {
-		// a hard crash (e.g. stack overflow / fatal error) in item len(res): attribute it and continue with the rest
+		// a hard crash (stack overflow, out of memory, killed after the time limit) in item len(res)
+		crashed := batch[len(res)]
+		tail := out.String()
+		if i := strings.Index(tail, "goroutine "); i > 0 {
+			tail = tail[:i]
+		}
+		if len(tail) > 400 {
+			tail = tail[len(tail)-400:]
+		}
+		res = append(res, replayResult{ID: crashed.ID, Outcome: "panic", Msg: "process died or did not terminate within the limit (" + err.Error() + "): " + tail})
 		if len(res) < len(batch) {
-			crashed := batch[len(res)]
-			tail := out.String()
-			if len(tail) > 600 {
-				tail = tail[len(tail)-600:]
-			}
-			res = append(res, replayResult{ID: crashed.ID, Outcome: "panic", Msg: "process died: " + tail})
-			if len(res) < len(batch) {
-				more, _ := runBatch(bin, buildDir, batch[len(res):])
-				res = append(res, more...)
-			}
+			more, _ := runBatch(bin, buildDir, batch[len(res):])
+			res = append(res, more...)
 		}
 	}
 	return res, nil
